@@ -40,6 +40,12 @@
 (* ExistsRefreshes = TRUE is the tree as it is (with FALSE TLC shows the      *)
 (* stale resolution as a counterexample).                                    *)
 (*                                                                         *)
+(* CONCURRENT requests: every request is one atomic step of this model (the   *)
+(* trace of a free-running stress run is the order in which the answers were  *)
+(* recorded).  As long as nobody writes the store, the answer of a request is  *)
+(* a function of that request, content and store alone, so any order gives the *)
+(* same answers: every recorded answer is judged exactly like a sequential one.*)
+(*                                                                         *)
 (* BACKEND FAULTS: an existence check of a request may FAIL (file backend:   *)
 (* the file is momentarily unparseable, so every check of that request       *)
 (* fails; Consul backend: the KV GET of the i-th candidate is answered with   *)
@@ -75,10 +81,16 @@ VARIABLES content,   \* [Entries -> parts]                                   (pr
 svars == <<content, compiled, dirty, backend, store, tree, req, out, n>>
 
 (* two base paths; D2f is asked for but never exists *)
-Entries == {"D1e", "D1f", "D1s", "D2e", "D2s"}
+\* Entries in SUBFOLDERS: S1 = c/PHYSICS/r/sub (main, sib; its parent D1 has a namesake "sib" with other content) and
+\* S3 = c/TECHNICAL/r/sub (main, sib; no "sib" one level up).  A relative include means the including entry's own folder
+\* (service.go splits the printed path at its LAST '/').
+Entries == {"D1e", "D1f", "D1s", "D2e", "D2s", "S1m", "S1s", "S3m", "S3s"}
 Askable == Entries \cup {"D2f"}
-DirOf(e) == IF e \in {"D1e", "D1f", "D1s"} THEN "D1" ELSE "D2"        \* D1 = c/PHYSICS/r, D2 = c/ANY/any
-SibOf(e) == IF DirOf(e) = "D1" THEN "D1s" ELSE "D2s"                  \* the entry `{% include "sib" %}` means there
+Dirs == {"D1", "D2", "S1", "S3"}
+DirOf(e) == CASE e \in {"D1e", "D1f", "D1s"} -> "D1"                   \* D1 = c/PHYSICS/r, D2 = c/ANY/any
+              [] e \in {"S1m", "S1s"} -> "S1" [] e \in {"S3m", "S3s"} -> "S3" [] OTHER -> "D2"
+SibOf(e) == CASE DirOf(e) = "D1" -> "D1s" [] DirOf(e) = "S1" -> "S1s" [] DirOf(e) = "S3" -> "S3s"
+              [] OTHER -> "D2s"                                        \* the entry `{% include "sib" %}` means there
 
 (* the four candidates of a lookup of entry x of component c; the same ids name the queries c/RT/role/x *)
 Keys == {"Pr", "Ar", "Pa", "Aa"}
@@ -98,6 +110,10 @@ InitContent ==
        [] e = "D1f" -> <<P("var", "v"), IncPart>>
        [] e = "D1s" -> <<P("ovl", "w")>>
        [] e = "D2e" -> <<P("up", "v"), IncPart, P("ovr", "w")>>
+       [] e = "S1m" -> <<P("lit", "L"), IncPart, P("var", "v")>>
+       [] e = "S1s" -> <<P("ovr", "v"), P("lit", "J")>>
+       [] e = "S3m" -> <<IncPart, P("lit", "J")>>
+       [] e = "S3s" -> <<P("var", "w")>>
        [] OTHER     -> <<P("var", "v")>>]
 
 \* catalogues (a TLC configuration file cannot hold sequences; the cfg picks members by index)
